@@ -205,3 +205,35 @@ func emitBaseTreeCode(repo string) (string, error) {
 			"getBinds": "a constant", "match": "a constant", "getMatchStyle": "anonymous receiver"},
 	})
 }
+
+func init() { emitters["AllTreeCode"] = emitAllTreeCode }
+
+// Gen/AllTreeCode.lean: `matchAllTree.matchAll` (tree.go) — the match-all subtree: try the children on what follows; on a
+// miss swallow one more segment, up to the capture limit. A `for cond` loop: it runs on fuel (`len(path) + 1`: every
+// iteration that goes on advances `next` past a "/"), and Props/C08AllTreeCode shows the fuel suffices.
+// `t.matchNextSegment`, which the tree gets from the embedded baseTree, is the search below the node (Code/LibTree.lean).
+func emitAllTreeCode(repo string) (string, error) {
+	return translateType(repo, codeCfg{
+		pkg:          "./internal/route",
+		recvType:     "matchAllTree",
+		namespace:    "Flamego.Gen.AllTreeCode",
+		imports:      []string{"Flamego.Code.GoSem", "Flamego.Code.LibRoute", "Flamego.Code.LibTree"},
+		stringBytes:  true,
+		opaqueFields: true,
+		ptrOption:    true,
+		structs:      []string{"baseTree"},
+		types: map[string]string{"net/http.Header": "Lib.Header",
+			"github.com/flamego/flamego/internal/route.Leaf": "Lib.Leaf",
+			"github.com/flamego/flamego/internal/route.Tree": "Lib.Tree"},
+		lib: map[string]string{"strings.Index": "Lib.strings_Index"},
+		libOut: map[string]string{
+			"(*github.com/flamego/flamego/internal/route.baseTree).matchNextSegment": "selfNext E hok",
+		},
+		loopFuel: map[string]string{"matchAll": "(path.length + 1)"},
+		prelude: "variable (E : Flamego.Engine) (hok : Nat → Bool)\n" +
+			"/-- `t.matchNextSegment(path, next, params, header)`, inherited from the embedded baseTree: the search below this node -/\n" +
+			"def selfNext (t : matchAllTree) (path : Bytes) (next : Int) (ps : List (Bytes × Bytes)) (_ : Lib.Header) : Lib.Leaf × Bool × List (Bytes × Bytes) :=\n" +
+			"  Lib.resOf ps (Flamego.matchNextIdx E hok t.baseTree.subtrees t.baseTree.leaves path next.toNat ps)\n",
+		skip: map[string]string{"getBinds": "a constant"},
+	})
+}
